@@ -4,6 +4,7 @@
    spelled out here and proved from the lemma of the same name under `Peppi/` (generated once by
    `bin/mkprops.py`, then kept as source).  What is proved and what is partial: DESIGN.md §4. -/
 import Peppi.VersionProof
+import Peppi.VersionMore
 set_option linter.unusedVariables false
 namespace Peppi.Props.C20
 
@@ -53,5 +54,35 @@ theorem Ver_lt_patch (v : Ver) (p M m : Nat) : ({ v with patch := p } : Ver).lt 
 /- from `Peppi.VersionProof` -/
 theorem Ver_gte_or_lt (v : Ver) (M m : Nat) : (v.gte M m = true ∧ v.lt M m = false) ∨ (v.gte M m = false ∧ v.lt M m = true) :=
   _root_.Peppi.Ver.gte_or_lt v M m
+
+/- from `Peppi.VersionMore` -/
+theorem Ver_gte_self (v : Ver) : v.gte v.major v.minor = true :=
+  _root_.Peppi.Ver.gte_self v
+
+/- from `Peppi.VersionMore` -/
+theorem Ver_gte_total (v w : Ver) : v.gte w.major w.minor = true ∨ w.gte v.major v.minor = true :=
+  _root_.Peppi.Ver.gte_total v w
+
+/- from `Peppi.VersionMore` -/
+theorem Ver_gte_antisymm (v w : Ver) (h1 : v.gte w.major w.minor = true) (h2 : w.gte v.major v.minor = true) :
+    v.major = w.major ∧ v.minor = w.minor ∧ ∀ M m, v.gte M m = w.gte M m :=
+  _root_.Peppi.Ver.gte_antisymm v w h1 h2
+
+/- from `Peppi.VersionMore` -/
+theorem Ver_lt_mono (v w : Ver) (M m : Nat) (h : v.major < w.major ∨ (v.major = w.major ∧ v.minor ≤ w.minor))
+    (hw : w.lt M m = true) : v.lt M m = true :=
+  _root_.Peppi.Ver.lt_mono v w M m h hw
+
+/- from `Peppi.VersionMore` -/
+theorem Ver_parse_wf (s : List Char) (v : Ver) (h : Ver.parse s = .ok v) : v.WF :=
+  _root_.Peppi.Ver.parse_wf s v h
+
+/- from `Peppi.VersionMore` -/
+theorem Ver_display_inj (v w : Ver) (hv : v.WF) (hw : w.WF) (h : v.display = w.display) : v = w :=
+  _root_.Peppi.Ver.display_inj v w hv hw h
+
+/- from `Peppi.VersionMore` -/
+theorem Ver_parse_display_parse (s : List Char) (v : Ver) (h : Ver.parse s = .ok v) : Ver.parse v.display = .ok v :=
+  _root_.Peppi.Ver.parse_display_parse s v h
 
 end Peppi.Props.C20
